@@ -546,6 +546,55 @@ Definition dec_misc (e : endian) (all bs : list Z) : option (Z * list Z) :=
   match misc_try e bs 3 with Some r => Some r | None =>
   match misc_try e bs 2 with Some r => Some r | None => misc_try e bs 1 end end end end.
 
+(* --- handle data stream: 16-byte header (size_of_header, size_of_descriptor, number_of_descriptors,
+   reserved), descriptors of 32 bytes (MINIDUMP_HANDLE_DESCRIPTOR) or 40 (.._2); type and object names are
+   MINIDUMP_STRINGs, RVA 0 = none.  Object-information chains (object_info_rva <> 0) are not modelled. *)
+Record mhandle := {
+  h_handle : Z; h_type : option (list Z); h_object : option (list Z);
+  h_attr : Z; h_access : Z; h_hcount : Z; h_pcount : Z
+}.
+Definition ostring (e : endian) (o : option (list Z)) : list Z :=
+  match o with Some u => enc_string e u | None => [] end.
+Definition ostring_len (o : option (list Z)) : Z :=
+  match o with Some u => 4 + 2 * zlen u | None => 0 end.
+Definition orva (o : option (list Z)) (off : Z) : Z := match o with Some _ => off | None => 0 end.
+Definition read_ostring (e : endian) (all : list Z) (rva : Z) : option (list Z) :=
+  if rva =? 0 then None else read_string e all rva.
+Definition handle_codec (v2 : bool) : icodec mhandle := {|
+  ic_layout := if v2 then L_MINIDUMP_HANDLE_DESCRIPTOR_2 else L_MINIDUMP_HANDLE_DESCRIPTOR;
+  ic_aux := fun e h => ostring e (h_type h) ++ ostring e (h_object h);
+  ic_value := fun h off =>
+    vtuple ([VInt (h_handle h); VInt (orva (h_type h) off); VInt (orva (h_object h) (off + ostring_len (h_type h)));
+             VInt (h_attr h); VInt (h_access h); VInt (h_hcount h); VInt (h_pcount h)]
+            ++ (if v2 then [VInt 0; VInt 0] else []));
+  ic_read := fun e all v =>
+    match v with
+    | VSeq (VInt hd) (VSeq (VInt trva) (VSeq (VInt orv) (VSeq (VInt at_) (VSeq (VInt ac) (VSeq (VInt hc) (VSeq (VInt pc) _)))))) =>
+        Some (Some {| h_handle := hd; h_type := read_ostring e all trva; h_object := read_ostring e all orv;
+                      h_attr := at_; h_access := ac; h_hcount := hc; h_pcount := pc |})
+    | _ => None
+    end |}.
+Definition HANDLE_HDR : Z := lsize L_MINIDUMP_HANDLE_DATA_STREAM.
+Definition handle_esize (v2 : bool) : Z := lsize (ic_layout (handle_codec v2)).
+Definition enc_handles (e : endian) (off : Z) (x : bool * list mhandle) : section :=
+  enc_exlist (handle_codec (fst x)) e HANDLE_HDR 4 off (snd x).
+(* -> (descriptor size, (count, descriptor bytes)) *)
+Definition dec_handle_hdr (e : endian) (bs : list Z) : option (Z * (Z * list Z)) :=
+  obnd (take 4 bs) (fun a => obnd (take 4 (snd a)) (fun b => obnd (take 4 (snd b)) (fun c =>
+    let hsize := dec_uint e (fst a) in
+    let ds := dec_uint e (fst b) in
+    let n := dec_uint e (fst c) in
+    if negb ((ds =? handle_esize false) || (ds =? handle_esize true)) then None
+    else if zlen bs <? n * ds + hsize then None
+    else Some (ds, (n, skipn (Z.to_nat hsize) bs))))).
+Definition dec_handles (e : endian) (all bs : list Z) : option (bool * list mhandle) :=
+  obnd (dec_handle_hdr e bs) (fun r =>
+    let v2 := fst r =? handle_esize true in
+    match dec_items (handle_codec v2) e all (Z.to_nat (fst (snd r))) (snd (snd r)) with
+    | Some l => Some (v2, l)
+    | None => None
+    end).
+
 (* --- structs carried as their flat integer lists: Breakpad info, assertion info, thread info entries *)
 Definition enc_flat (L : layout) (e : endian) (off : Z) (ints : list Z) : section :=
   match unflat L ints with
@@ -583,7 +632,8 @@ Record model := {
   m_assertion : option (list Z);         (* MINIDUMP_ASSERTION_INFO: 3*128 UTF-16 units, line, type *)
   m_thread_info : option (list (list Z)); (* MINIDUMP_THREAD_INFO entries *)
   m_lx_cpuinfo : option (list Z); m_lx_status : option (list Z); m_lx_lsb : option (list Z);
-  m_lx_environ : option (list Z); m_lx_maps : option (list Z); m_lx_limits : option (list Z)
+  m_lx_environ : option (list Z); m_lx_maps : option (list Z); m_lx_limits : option (list Z);
+  m_handles : option (bool * list mhandle)   (* descriptor version 2?, handles *)
 }.
 
 Definition UNLOADED_HDR : Z := 12.
@@ -613,7 +663,8 @@ Definition table (e : endian) (m : model) : list (Z * option (Z -> section)) :=
     ob ST_LinuxLsbRelease (m_lx_lsb m) (enc_raw e);
     ob ST_LinuxEnviron (m_lx_environ m) (enc_raw e);
     ob ST_LinuxMaps (m_lx_maps m) (enc_raw e);
-    ob ST_MozLinuxLimits (m_lx_limits m) (enc_raw e) ].
+    ob ST_MozLinuxLimits (m_lx_limits m) (enc_raw e);
+    ob ST_HandleDataStream (m_handles m) (enc_handles e) ].
 
 (* place the present sections one after the other from [off]: (type, (offset, section)) *)
 Fixpoint place (t : list (Z * option (Z -> section))) (off : Z) : list (Z * (Z * section)) :=
@@ -662,7 +713,8 @@ Record dview := {
   v_misc : sres (Z * list Z);
   v_breakpad : sres (list Z); v_assertion : sres (list Z); v_thread_info : sres (list (list Z));
   v_lx_cpuinfo : sres (list Z); v_lx_status : sres (list Z); v_lx_lsb : sres (list Z);
-  v_lx_environ : sres (list Z); v_lx_maps : sres (list Z); v_lx_limits : sres (list Z)
+  v_lx_environ : sres (list Z); v_lx_maps : sres (list Z); v_lx_limits : sres (list Z);
+  v_handles : sres (bool * list mhandle)
 }.
 
 (* BTreeMap::insert in file order: a later entry of the same type replaces the earlier one *)
@@ -742,7 +794,8 @@ Definition decode_dump (all : list Z) : option dview :=
                 v_lx_lsb := get_stream dec_raw e all dir ST_LinuxLsbRelease;
                 v_lx_environ := get_stream dec_raw e all dir ST_LinuxEnviron;
                 v_lx_maps := get_stream dec_raw e all dir ST_LinuxMaps;
-                v_lx_limits := get_stream dec_raw e all dir ST_MozLinuxLimits |})
+                v_lx_limits := get_stream dec_raw e all dir ST_MozLinuxLimits;
+                v_handles := get_stream dec_handles e all dir ST_HandleDataStream |})
   | _ => None
   end)).
 
@@ -755,7 +808,8 @@ Definition view_of (e : endian) (m : model) : dview :=
      v_misc := sres_of (m_misc m);
      v_breakpad := sres_of (m_breakpad m); v_assertion := sres_of (m_assertion m); v_thread_info := sres_of (m_thread_info m);
      v_lx_cpuinfo := sres_of (m_lx_cpuinfo m); v_lx_status := sres_of (m_lx_status m); v_lx_lsb := sres_of (m_lx_lsb m);
-     v_lx_environ := sres_of (m_lx_environ m); v_lx_maps := sres_of (m_lx_maps m); v_lx_limits := sres_of (m_lx_limits m) |}.
+     v_lx_environ := sres_of (m_lx_environ m); v_lx_maps := sres_of (m_lx_maps m); v_lx_limits := sres_of (m_lx_limits m);
+     v_handles := sres_of (m_handles m) |}.
 
 (* ------------------------------------------------------------------ memory lookups *)
 (* MinidumpMemoryBase::memory_range *)
